@@ -7,9 +7,9 @@ sequence R of strings of arbitrary length).  Spec vocabulary (pure functions of 
     JOIN(a, k)  = "".join(a[0:k])            (dependency spec of `concat`, see join facts below)
     NE(a, k)    = |{ j < k : a[j] != "" }|   (number of non-empty pieces among the first k)
 
-Join facts used (all are instances of: join([]) = "", join(X + Y) = join(X) + join(Y), join([x]) = x):
+Join facts used (instances of: join([]) = "", join(X + [x]) = join(X) + x; cross-checked natively):
     JOIN(a, 0) = ""        JOIN(a, k+1) = JOIN(a, k) + a[k]
-    (forall j < m. b[j] = a[p+j])  =>  JOIN(a, p) + JOIN(b, m) = JOIN(a, p+m)
+    after  lst.append(x):  JOIN(lst') = JOIN(lst) + x
 
 Obligations
     C10.Template.render       = environment.concat(R(ctx0)),   ctx0 = new_context(dict(*args, **kwargs))
@@ -68,13 +68,6 @@ def join_step(a, k):
 
 def join_base(a):
     return [JOIN(a, 0) == EMPTY, NE(a, 0) == 0]
-
-
-def join_segment(a, p, b, m):
-    """b[0:m] == a[p:p+m]  =>  JOIN(a,p) + JOIN(b,m) == JOIN(a,p+m)   (join is a monoid homomorphism)"""
-    j = z3.Int(fresh_name("sg"))
-    same = z3.ForAll([j], z3.Implies(z3.And(0 <= j, j < m), z3.Select(b, j) == z3.Select(a, p + j)))
-    return z3.Implies(z3.And(same, p >= 0, m >= 0), z3.Concat(JOIN(a, p), JOIN(b, m)) == JOIN(a, p + m))
 
 
 # =====================================================================================
@@ -288,27 +281,49 @@ class BufferedGenerator(VC):
 
         I.specs[("fn", id(next))] = next_spec
 
-        def concat_spec(I_, st, args, kwargs, node):
-            arr, n, kind = A.list_terms(st, args[0])
+        def buf_terms(st, v):
+            """(arr, n) of a list of strings; the empty concrete list has no element kind yet"""
+            arr, n, kind = A.list_terms(st, v)
             if kind != "str":
-                if isinstance(n, z3.ExprRef) and z3.is_int_value(n) and n.as_long() == 0:
-                    arr = z3.K(I_sort, EMPTY)
-                else:
-                    raise Unsupported("concat of a non-string sequence", node)
+                if z3.is_int_value(n) and n.as_long() == 0:
+                    return z3.K(I_, EMPTY), n
+                raise Unsupported("a list of non-strings where pieces are expected")
+            return arr, n
+
+        c.buf_terms = buf_terms
+
+        def concat_spec(I_, st, args, kwargs, node):
+            arr, n = buf_terms(st, args[0])
             v = Sym(JOIN(arr, n), "str")
-            Y = st.ghost["Y"]
-            st.assume(join_segment(c.R.arr, Y.pos, arr, n), JOIN(arr, 0) == EMPTY)
+            st.assume(JOIN(arr, 0) == EMPTY)
             A.call_event(st, "concat", args, kwargs, v, node)
             return [(st, v)]
 
-        I_sort = I_
         I.specs[("fn", id(E.concat))] = concat_spec
+
+        orig_call_method = I.call_method
+
+        def call_method(st, recv, name, args, kwargs, node=None):
+            """list.append on a list of pieces: join fact  join(X + [x]) = join(X) + x"""
+            if name == "append" and isinstance(recv, Ref) and isinstance(st.get(recv), HList) and len(args) == 1:
+                a0, n0 = buf_terms(st, recv)
+                x = args[0]
+                rs = orig_call_method(st, recv, name, args, kwargs, node)
+                if isinstance(x, (Sym, str)) and (isinstance(x, str) or x.k == "str"):
+                    for s, v in rs:
+                        if not isinstance(v, Raised):
+                            a1, n1 = buf_terms(s, recv)
+                            s.assume(JOIN(a1, n1) == z3.Concat(JOIN(a0, n0), to_term(x, "str")), JOIN(a1, 0) == EMPTY)
+                return rs
+            return orig_call_method(st, recv, name, args, kwargs, node)
+
+        I.call_method = call_method
 
         def outer_inv(ctx):
             st = ctx.st
             Y = st.ghost["Y"]
             cur = c.cur(st)
-            barr, bn, _ = A.list_terms(st, ctx.local(BUF))
+            barr, bn = buf_terms(st, ctx.local(BUF))
             seg, val, cnts = c.chunk_facts(Y, cur, final=False)
             return [
                 bn == 0, to_term(ctx.local(CSIZE), "int") == 0, Y.pos == cur, 0 <= cur, cur <= c.R.n,
@@ -325,20 +340,17 @@ class BufferedGenerator(VC):
             st = ctx.st
             Y = st.ghost["Y"]
             cur = c.cur(st)
-            h = st.get(ctx.local(BUF))
-            barr, bn, bk = A.list_terms(st, ctx.local(BUF))
+            barr, bn = buf_terms(st, ctx.local(BUF))
             cs = to_term(ctx.local(CSIZE), "int")
             j = z3.Int(fresh_name("bj"))
-            out = [
+            return [
                 0 <= Y.pos, Y.pos <= cur, cur <= c.R.n,
-                bn == cur - Y.pos,
+                # the buffer holds the text of the pieces consumed since the last chunk
+                z3.Concat(c.J(Y.pos), JOIN(barr, bn)) == c.J(cur),
                 cs == c.N(cur) - c.N(Y.pos), 0 <= cs, cs <= c.size.t,
                 z3.Implies(cs == 0, c.J(cur) == c.J(Y.pos)),
                 z3.ForAll([j], z3.Implies(z3.And(cs == 0, Y.pos <= j, j < cur), z3.Select(c.R.arr, j) == EMPTY)),
             ]
-            if bk == "str":
-                out.append(z3.ForAll([j], z3.Implies(z3.And(0 <= j, j < bn), z3.Select(barr, j) == z3.Select(c.R.arr, Y.pos + j))))
-            return out
 
         def inner_heap(st, local):
             c.havoc_buf(st, local)
@@ -353,7 +365,7 @@ class BufferedGenerator(VC):
         h.arr = z3.Const(fresh_name("buf_arr"), ArrS)
         h.n = z3.Int(fresh_name("buf_n"))
         h.k = "str"
-        st.assume(h.n >= 0)
+        st.assume(h.n >= 0, JOIN(h.arr, 0) == EMPTY)
         st.get(self.gen).cursor = Sym(z3.Int(fresh_name("cursor")), "int")
 
     # ---- pre-state ---------------------------------------------------------------------
@@ -451,6 +463,9 @@ def native_template(pieces, log, raise_at=None):
 
     def root(ctx):
         log.append(ctx)
+        if hasattr(ctx, "exported_vars"):
+            ctx.vars["exported0"] = "E0"
+            ctx.exported_vars.add("exported0")
         for i, p in enumerate(pieces):
             if raise_at is not None and i == raise_at:
                 raise Boom("render function failed")
@@ -478,6 +493,7 @@ def context_view_error(t, ctx, vars, shared=False, locals=None):
         if v is not U.missing:
             want[k] = v
     got = dict(ctx.get_all())
+    got.pop("exported0", None)  # set by the stand-in render function itself
     if got != want:
         return f"context holds {got!r}, expected {want!r}"
     if ctx.name != t.name or ctx.environment is not t.environment or ctx.blocks.keys() != t.blocks.keys():
@@ -597,6 +613,8 @@ def native_check(w):
             return "str(module) is not stable"
         if m.__name__ != t.name:
             return "module name"
+        if getattr(m, "exported0", None) != "E0":
+            return "the module does not carry the exported names of the template"
         return None
 
     if entry == "module_init":
@@ -660,6 +678,10 @@ def native_check(w):
         s = E.TemplateStream(iter(list(pieces)))
         if w.get("buffered"):
             s.enable_buffering(size)
+            twin = E.TemplateStream(iter(list(pieces)))
+            twin.enable_buffering(size)
+            if len(list(itertools.islice(twin, len(pieces) + 2))) > len(pieces) + 1:
+                return "the buffered stream does not terminate"
         extra = (enc,) if errors == "strict" else (enc, errors)
         if target == "path":
             d = tempfile.mkdtemp(prefix="c10dump")
@@ -743,11 +765,12 @@ def native_check(w):
         if got[:1] != ["<prior>"]:
             return "dump disturbed what the file already held"
         got = got[1:]
+        items = list(pieces)
         if w.get("buffered"):
-            j = (b"" if enc else "").join(got)
-            want = "".join(pieces).encode(enc, errors) if enc else "".join(pieces)
-            return None if j == want else f"dump wrote {got!r}, expected text {want!r}"
-        want = [p.encode(enc, errors) for p in pieces] if enc else list(pieces)
+            s2 = E.TemplateStream(iter(list(pieces)))
+            s2.enable_buffering(size)
+            items = list(itertools.islice(s2, len(pieces) + 2))  # what iterating the buffered stream gives
+        want = [p.encode(enc, errors) for p in items] if enc else list(items)
         return None if got == want else f"dump wrote {got!r}, expected {want!r} (in order)"
 
     raise ValueError(f"unknown entry {entry!r}")
@@ -979,7 +1002,7 @@ class Render(EntryVC):
 
     def p_errors(self, pre, out):
         """an Exception of the render function goes through handle_exception (which re-raises);
-        other exceptions pass; render never returns normally without a result"""
+        render never returns normally without a result"""
         if self.is_async_path(out):
             return None
         if out.returned:
@@ -988,8 +1011,9 @@ class Render(EntryVC):
         he = A.calls(out, "environment.handle_exception")
         if tag == "environment.handle_exception":
             cc = A.calls(out, "environment.concat")
-            return len(he) == 1 and len(cc) == 1 and isinstance(cc[0].result, Exc) and cc[0].result.cls is None
+            return len(he) == 1 and len(cc) == 1 and isinstance(cc[0].result, Exc)
         if tag == "render_func":
+            # only a non-Exception (KeyboardInterrupt ...) may bypass handle_exception
             return out.value.cls is KeyboardInterrupt and not he
         return False
 
@@ -1196,6 +1220,7 @@ class MakeModule(C10VC):
         c = self
         self.T = TemplateEnv()
         self.T.install(I)
+        self.exports = None
         I.inline.add("jinja2.environment:TemplateModule.__init__")
 
         def getattr_obj(I_, st, args, kwargs, node):
@@ -1262,7 +1287,7 @@ class MakeModule(C10VC):
         ge = A.calls(out, "Context.get_exported")
         if len(ge) != 1 or ge[0].args[0] is not A.calls(out, "Template.new_context")[0].result:
             return False
-        if any(f.get(k) is not x for k, x in self.exports.items()) or f.get("__name__") is not self.T.tname:
+        if self.exports is None or any(f.get(k) is not x for k, x in self.exports.items()) or f.get("__name__") is not self.T.tname:
             return False
         arr, n, kind = A.list_terms(out.st, b)
         j = z3.Int(fresh_name("mj"))
@@ -1300,7 +1325,7 @@ class ModuleInitGiven(C10VC):
         h = out.st.get(self.body)
         hp = pre.get(self.body)
         return (f.get("_body_stream") == self.body and not A.calls(out, "root_render_func") and h.arr is hp.arr and h.n is hp.n
-                and all(f.get(k) is x for k, x in self.exports.items()) and f.get("__name__") is self.T.tname)
+                and self.exports is not None and all(f.get(k) is x for k, x in self.exports.items()) and f.get("__name__") is self.T.tname)
 
     posts = [("kept", p_kept)]
 
@@ -1869,7 +1894,7 @@ def e2e_case(name, data, sizes):
     for size in sizes:
         s = t.stream(data)
         s.enable_buffering(size)
-        chunks = list(s)
+        chunks = list(itertools.islice(s, len(pieces) + 2))  # a non-terminating stream is cut (and rejected below)
         d = chunk_oracle(pieces, size, chunks)
         if d:
             return f"stream buffered({size}): {d}"
@@ -1928,7 +1953,10 @@ def bounded_e2e(task, tier, seed):
 
 def replay_bounded(w):
     if w.get("entry") == "e2e":
-        d = e2e_case(w["template"], E2E_DATA[w["data"]], tuple(range(2, 9)))
+        try:
+            d = e2e_case(w["template"], E2E_DATA[w["data"]], tuple(range(2, 9)))
+        except Exception as ex:  # noqa: the real code crashed on a valid template
+            d = f"crash {ex!r}"
         return d is not None, d or "all entry points agree"
     if w.get("entry") == "join":
         a = w["a"]
